@@ -57,7 +57,10 @@ def ledgerStep (s : LedgerSt) (ws : List String) : LedgerSt × String :=
       | "m", idx :: l => (s.upd idx (fun b => { b with miners := b.miners ++ pairsBN l }), "ok")
       | "apply", [idx] =>
         match s.blocks.find? (·.idx == idx) with
-        | some b => ({ s with store := s.store.apply b }, "ok")
+        | some b =>
+          -- the hypothesis of the balance theorems is checked on every real block: a block whose
+          -- contents and diffs are not coherent answers "incoherent" (the harness expects "ok")
+          ({ s with store := s.store.apply b }, if coherent b then "ok" else "incoherent")
         | none => (s, "no-block")
       | "revert", [idx] =>
         match s.blocks.find? (·.idx == idx) with
